@@ -9,7 +9,8 @@ import RuxModel.Model.Writer
 
   Sites must come in time order (chain blocks ascending, then E, then P); anything else is `bad-order`.
 -/
-namespace Rux.Drv
+namespace Rux.Drv.WriterE
+open Rux.Drv
 open Rux.Writer
 
 structure WriterSt where
@@ -138,4 +139,8 @@ def writerStep (s : WriterSt) : List String → WriterSt × String
 
 def writerEngine : Engine := { σ := WriterSt, init := WriterSt.init, step := writerStep }
 
+end Rux.Drv.WriterE
+
+namespace Rux.Drv
+export WriterE (writerEngine)
 end Rux.Drv
